@@ -558,6 +558,33 @@ func c17rIsBig(n int64) bool {
 	return false
 }
 
+// c17rGenShrinkQueued: the cap fully used, further clients already waiting (the acceptor is queued in the
+// semaphore), a run-time shrink by at least 2 below the number of open connections, then several closes (and
+// more dials): while the shrink is parked at most the one Accept that was ahead of it may be served.
+func c17rGenShrinkQueued(r *verifh.Rand) interface{} {
+	c := r.Range(3, 5)
+	in := c17rInput{Cap0: uint32(c)}
+	for k := 0; k < c+r.Range(1, 3); k++ {
+		in.Ops = append(in.Ops, c17rOp{Op: "dial"})
+	}
+	in.Ops = append(in.Ops, c17rOp{Op: "set", N: uint32(r.Range(1, c-2))})
+	order := []int{}
+	for k := 0; k < c; k++ {
+		order = append(order, k)
+	}
+	for k := len(order) - 1; k > 0; k-- { // shuffle
+		j := r.Intn(k + 1)
+		order[k], order[j] = order[j], order[k]
+	}
+	for _, k := range order[:r.Range(3, c)] {
+		if r.Intn(3) == 0 {
+			in.Ops = append(in.Ops, c17rOp{Op: "dial"})
+		}
+		in.Ops = append(in.Ops, c17rOp{Op: "close", K: k})
+	}
+	return in
+}
+
 // c17rGenBig: reload to a maxConnections at / beyond maxCapacity ("unlimited"), then reload to a small one
 // below usage, then closes and dials
 func c17rGenBig(r *verifh.Rand) interface{} {
@@ -585,6 +612,9 @@ func c17rGenBig(r *verifh.Rand) interface{} {
 }
 
 func c17rGen(r *verifh.Rand, i int) interface{} {
+	if r.Intn(12) == 0 {
+		return c17rGenShrinkQueued(r)
+	}
 	if r.Intn(12) == 0 {
 		return c17rGenBig(r)
 	}
